@@ -133,6 +133,35 @@ FrameOf(s, S) == SubSeq(S, s.start + 1, s.pos)
 RtcmOk(f) == /\ Len(f) > 6
              /\ Crc24Q(SubSeq(f, 1, Len(f) - 3)) = SubSeq(f, Len(f) - 2, Len(f))
 
+(***************************************************************************)
+(* NMEA 0183 checksum as pynmeagps validates it: strip leading / trailing  *)
+(* '$' CR LF, split at the first '*', the two characters after it are the  *)
+(* hexadecimal XOR of the characters before it (either case).  Defined on  *)
+(* ASCII lines.                                                            *)
+(***************************************************************************)
+NmeaStripSet == {36, 13, 10}
+RECURSIVE LStrip(_), RStrip(_)
+LStrip(s) == IF s # <<>> /\ Head(s) \in NmeaStripSet THEN LStrip(Tail(s)) ELSE s
+RStrip(s) == IF s # <<>> /\ s[Len(s)] \in NmeaStripSet THEN RStrip(SubSeq(s, 1, Len(s) - 1)) ELSE s
+UpperByte(c) == IF c >= 97 /\ c <= 122 THEN c - 32 ELSE c
+HexUpperByte(n) == IF n < 10 THEN 48 + n ELSE 55 + n
+NmeaAscii(f) == \A i \in 1..Len(f) : f[i] < 128
+NmeaCkOk(f) ==
+    LET s == RStrip(LStrip(f))
+        stars == {i \in 1..Len(s) : s[i] = 42}
+    IN /\ stars # {}
+       /\ LET st == CHOOSE i \in stars : \A j \in stars : i <= j
+               x  == Xor8(SubSeq(s, 1, st - 1))
+               ck == SubSeq(s, st + 1, Len(s))
+           IN [i \in 1..Len(ck) |-> UpperByte(ck[i])] = <<HexUpperByte(x \div 16), HexUpperByte(x % 16)>>
+
+\* what a frame must satisfy for its protocol's parser to accept it when checksums are validated (necessary, not sufficient)
+Interpreted(f, p) ==
+    CASE p = "UBX"  -> WellFormed(f)
+      [] p = "RTCM" -> RtcmOk(f)
+      [] p = "NMEA" -> ~NmeaAscii(f) \/ NmeaCkOk(f)
+      [] OTHER -> FALSE
+
 RuleVerdict(f, p, goodNmea) ==
     CASE p = "UBX"  -> WellFormed(f)
       [] p = "RTCM" -> RtcmOk(f)
